@@ -178,7 +178,7 @@ SPEC = dict(
     harness="hv_proto", bin="hv_proto", mode="c40",
     cases={"quick": 250, "thorough": 6000},
     translate=translate,
-    harness_timeout=7200,
+    harness_timeout=14400,
     search_cases=1500,
     level="proof",
     design_ref="DESIGN.md §5 C40",
